@@ -10,7 +10,7 @@ here="$(cd "$(dirname "$0")/.." && pwd)"
 id="$1"
 case "$id" in
   C01) plan="decode:3000000:700" ;;
-  C02) plan="encode:300000:64" ;;
+  C02) plan="encode:20000:64" ;;
   C04) plan="arrivals:40000:64" ;;
   C08) plan="comparison:1000000:64 conflicts:40000:64" ;;
   C14) plan="shutdown_queue:40000:64" ;;
